@@ -270,6 +270,44 @@ pub fn run_c09(r: &mut Report) {
         r.case("large-document-signature-binds-all-fields", json!({"stdout_bytes": 2 << 20}), "honest verifies, transplanted signature is rejected",
                format!("honest_ok={} forged_rejected={}", ok_honest, forged_rejected), ok_honest && forged_rejected);
     }
+    // a layout that LISTS keys of every supported kind (functionaries need not be the signers): Ed25519, ECDSA P-256, RSA-PSS with
+    // SHA-256 and with SHA-512, 2048 / 3072 / 4096 / 8192 bit, and the raw-pair flavour - signed, written by every writer, read back:
+    // verifies, and the key table comes back equal
+    {
+        use in_toto::crypto::{PublicKey, SignatureScheme as S};
+        use in_toto::interchange::{DataInterchange, Json, JsonPretty};
+        let mut listed: Vec<(String, PublicKey)> = vec![];
+        for (name, file, schemes) in [("ed25519", "/repo/tests/ed25519/ed25519-1.spki.der", vec![S::Ed25519]), ("ecdsa", "/repo/tests/ecdsa/ec.spki.der", vec![S::EcdsaP256Sha256]),
+            ("rsa2048", "/repo/tests/rsa/rsa-2048.spki.der", vec![S::RsaSsaPssSha256, S::RsaSsaPssSha512]), ("rsa4096", "/repo/tests/rsa/rsa-4096.spki.der", vec![S::RsaSsaPssSha256, S::RsaSsaPssSha512]),
+            ("rsa3072", "/verif/replay/fixtures/rsa-3072.spki.der", vec![S::RsaSsaPssSha512]), ("rsa8192", "/verif/replay/fixtures/rsa-8192.spki.der", vec![S::RsaSsaPssSha256, S::RsaSsaPssSha512])] {
+            if let Ok(der) = std::fs::read(file) { for sc in schemes { if let Ok(k) = PublicKey::from_spki(&der, sc.clone()) { listed.push((format!("{} {:?}", name, sc), k)); } } }
+        }
+        listed.push(("ed25519 raw pair".into(), PublicKey::from_ed25519(key(1).public().as_bytes().to_vec()).unwrap()));
+        let owner = key(1);
+        for (what, k) in &listed {
+            let st = in_toto::models::step::Step::new("s").threshold(1).add_key(k.key_id().clone());
+            let l = in_toto::models::LayoutMetadataBuilder::new().expires(chrono::Utc::now() + chrono::Duration::days(3)).add_step(st).add_key(k.clone()).build().unwrap();
+            let md = MetadataWrapper::Layout(l.clone());
+            for via_new in [true, false] {
+                let mb = if via_new { Metablock::new(md.clone(), &[&owner]).unwrap() } else { MetablockBuilder::from_metadata(md.clone().into_trait()).sign(&[&owner]).unwrap().build() };
+                let mut texts: Vec<(&str, Vec<u8>)> = vec![("serde-compact", serde_json::to_vec(&mb).unwrap()), ("serde-pretty", serde_json::to_vec_pretty(&mb).unwrap())];
+                let mut w = vec![]; if Json::to_writer(&mut w, &mb).is_ok() { texts.push(("Json::to_writer", w)); }
+                let mut w = vec![]; if JsonPretty::to_writer(&mut w, &mb).is_ok() { texts.push(("JsonPretty::to_writer", w)); }
+                let mut bad: Vec<String> = vec![];
+                for (wname, bytes) in &texts {
+                    match serde_json::from_slice::<Metablock>(bytes) {
+                        Ok(back) => {
+                            let same_keys = matches!(&back.metadata, MetadataWrapper::Layout(bl) if bl.keys == l.keys);
+                            let verifies = matches!(no_panic(|| back.verify(1, [owner.public()])), Ok(Ok(_)));
+                            if !(same_keys && verifies) { bad.push(format!("{}: read back, key table equal: {}, verifies: {}", wname, same_keys, verifies)); }
+                        }
+                        Err(e) => bad.push(format!("{}: cannot be read back: {}", wname, e.to_string().chars().take(90).collect::<String>())),
+                    }
+                }
+                r.case("layout-listing-a-key-of-every-kind", json!({"listed_key": what, "via_new": via_new, "writers": texts.len()}), "read back by every writer's output, key table equal, verifies", format!("{:?}", bad), bad.is_empty() && texts.len() == 4);
+            }
+        }
+    }
     // signer sets whose members are related: the same key material under two identifiers (imported from PKCS#8 and from its raw
     // pair: the hash-algorithm list differs), the same RSA key under both PSS schemes, alone and next to unrelated keys - k signers,
     // threshold k, both constructors, both layouts
